@@ -223,6 +223,11 @@ ILL = {
     'zero_block': ('uniform10', 3, lambda n: [F(0) if 3 <= i <= 6 else F(1) for i in range(n)], [F(0), F(2), F(4), F(5), F(6), F(9)]),
     'all_zero': ('uniform8', 2, lambda n: [F(0)] * n, [F(0), F(7, 2), F(7)]),
     'too_few_bk': ('dense6', 4, lambda n: [F(1)] * n, [F(0), F(5, 2)]),
+    # the unsupported stretch at the upper / lower end of the knot vector (the last / first coefficient is the one without data)
+    'tail_zero4': ('uniform10', 4, lambda n: [F(0) if i >= 6 else F(1) for i in range(n)], [F(0), F(2), F(4), F(6), F(8), F(9)]),
+    'tail_zero3': ('uniform10', 3, lambda n: [F(0) if i >= 7 else F(1) for i in range(n)], [F(0), F(3), F(6), F(8), F(9)]),
+    'head_zero4': ('uniform10', 4, lambda n: [F(0) if i <= 3 else F(1) for i in range(n)], [F(0), F(1), F(3), F(5), F(7), F(9)]),
+    'bkpt_beyond4': ('uniform8', 4, lambda n: [F(1)] * n, [F(0), F(2), F(4), F(6), F(9), F(12)]),
     'negative_w': ('uniform8', 2, lambda n: [F(-1) if i < 4 else F(1) for i in range(n)], [F(0), F(2), F(4), F(7)]),
 }
 
